@@ -250,14 +250,21 @@ func doNewRawSuite(scn, name string, inlist bool) Event {
 	e := newEvent("NewRawSuite", scn)
 	e.X = map[string]any{"name": S(name)}
 	zero := cfgOf(otp.SuiteConfig{})
-	e.Y = map[string]any{"cfg": zero, "str": B{}, "known": false, "inlist": inlist, "fromraws": zero}
+	e.Y = map[string]any{"cfg": zero, "str": B{}, "known": false, "inlist": inlist, "fromraws": zero, "mustok": false, "mustcfg": zero}
 	invoke(&e, func() result {
-		y := map[string]any{"cfg": zero, "str": B{}, "known": otp.IsKnownSuite(name), "inlist": inlist, "fromraws": cfgOf(otp.SuiteConfigFromRaws(name))}
+		y := map[string]any{"cfg": zero, "str": B{}, "known": otp.IsKnownSuite(name), "inlist": inlist, "fromraws": cfgOf(otp.SuiteConfigFromRaws(name)),
+			"mustok": false, "mustcfg": zero}
 		s, err := otp.NewRawSuite(name)
 		if err == nil && s != nil {
 			y["cfg"] = cfgOf(s.Config())
 			y["str"] = S(s.String())
 		}
+		// the panicking twin of the constructor (documented: panics exactly where NewRawSuite fails)
+		func() {
+			defer func() { recover() }()
+			ms := otp.MustRawSuite(name)
+			y["mustok"], y["mustcfg"] = true, cfgOf(ms.Config())
+		}()
 		return result{err: err, y: y}
 	})
 	return e
